@@ -204,8 +204,10 @@ func (s *Stream) projectGroupColumns(results []map[string]any) {
 
 // injectGroupKeyExprs 对函数表达式分组键（如 upper(device)）就地求值并写入行，使窗口与
 // aggregator 能按该合成键分组（它们只按 row[key] 取值，不求值）。裸列键无需处理。
-// 仅窗口路径在 Window.Add 前调用；dataMap 为 Emit 拷贝或 JOIN 增强副本，注入安全。
-func (s *Stream) injectGroupKeyExprs(data map[string]any) {
+// 仅窗口路径在 Window.Add 前调用。data 可能就是调用方传给 Emit 的 map（Emit 不拷贝），
+// 故首次注入前先做浅拷贝并返回该副本；无合成键时原样返回，零开销。
+func (s *Stream) injectGroupKeyExprs(data map[string]any) map[string]any {
+	var row map[string]any
 	for _, gf := range s.config.GroupFields {
 		if !strings.Contains(gf, "(") {
 			continue
@@ -214,8 +216,18 @@ func (s *Stream) injectGroupKeyExprs(data map[string]any) {
 		if err != nil {
 			continue
 		}
-		data[gf] = v
+		if row == nil {
+			row = make(map[string]any, len(data)+1)
+			for k, dv := range data {
+				row[k] = dv
+			}
+		}
+		row[gf] = v
 	}
+	if row == nil {
+		return data
+	}
+	return row
 }
 
 // qualifiedRefRe matches dotted identifiers like "m.location" (a maximal run of
